@@ -74,9 +74,13 @@ func (t *simTransport) RoundTrip(req *http.Request) (*http.Response, error) {
 	}
 	// like a real transport, the body dies with the request's context
 	t.body.Ctx = req.Context()
+	hdr := http.Header{}
+	if enc := negotiateEncoding(req, hdr, t.body.Data); hdr.Get("Content-Encoding") != "" {
+		t.body.Data, t.body.ErrAt = enc, -1
+	}
 	return &http.Response{
 		StatusCode: t.status, Status: fmt.Sprintf("%d %s", t.status, http.StatusText(t.status)),
-		Proto: "HTTP/1.1", ProtoMajor: 1, ProtoMinor: 1, Header: http.Header{}, Body: t.body, Request: req, ContentLength: t.clen,
+		Proto: "HTTP/1.1", ProtoMajor: 1, ProtoMinor: 1, Header: hdr, Body: t.body, Request: req, ContentLength: t.clen,
 	}, nil
 }
 
